@@ -295,7 +295,7 @@ def parser_check(paths):
                 if st[0] == "I" and ast.literal_eval(g[1:-1]) != KEYS[st[1]]:
                     ok = False
         if not ok:
-            bad.append({"path": s, "library": got, "expected": want})
+            bad.append({"path": s, "steps": [list(x) for x in path], "quotes": q, "library": got, "expected": want})
     for s in INVALID_PATHS:
         n += 1
         try:
@@ -703,7 +703,11 @@ def main(tier, replay=None):
     if replay:
         r = json.load(open(replay))
         if r.get("kind") == "parser":
-            n, bad = parser_check([([tuple(s) for s in r["path"]], r.get("quotes", 0))])
+            if "steps" in r:
+                n, bad = parser_check([([tuple(s) for s in r["steps"]], r.get("quotes", 0))])
+            else:       # a malformed string that must be rejected
+                n, bad = parser_check([])
+                bad = [b for b in bad if b["path"] == r["path"]]
             print("replay (parser):", bad or "passes now")
             return 1 if bad else 0
         case = from_json(r)
